@@ -17,10 +17,19 @@ CONSTANTS Units, MaxLen, Openers, Templates, Mode, DoExport
 
 VARIABLES x, stage
 
+\* "casekw": every key of the project's keyword table (all classes but fingerprints) in six small frames
+KwFrames(k) == { <<49, 32>> \o k \o <<32, 49>>,                 \* 1 K 1
+                 <<49, 32>> \o k \o <<32, 39, 120, 39>>,        \* 1 K 'x'
+                 k \o <<40, 49, 41>>,                            \* K(1)
+                 <<115, 101, 108, 101, 99, 116, 32>> \o k,       \* select K
+                 <<49, 59>> \o k \o <<32, 49>>,                  \* 1;K 1
+                 <<49, 32>> \o k \o <<32, 40, 49, 41>> }        \* 1 K (1)
+
 Init ==
   /\ stage = 0
   /\ \/ \E p \in Openers : \E j \in 0..MaxLen : \E f \in [1..j -> Units] : x = [s |-> p \o Concat(f), o |-> Len(p)]
      \/ \E t \in Templates : x = [s |-> t, o |-> 0]
+     \/ Mode = "casekw" /\ \E c \in KwClasses \ {70} : \E k \in KwOfClass(c) : \E t \in KwFrames(LowAscii(k)) : x = [s |-> t, o |-> 0]
 Next == stage = 0 /\ stage' = 1 /\ UNCHANGED x
 Spec == Init /\ [][Next]_<<x, stage>>
 
@@ -162,7 +171,7 @@ PumpLinear ==
 
 Prop ==
   stage = 1 =>
-  CASE Mode = "case"  -> CaseInsensitive
+  CASE Mode \in {"case", "casekw"} -> CaseInsensitive
     [] Mode = "quote" -> QuoteAgrees
     [] Mode = "c14"   -> PlainNeverSqli /\ PlainFetchBound /\ NoPlainFingerprint
     [] Mode = "c18"   -> LiteralEndsAtFirstTerminator
@@ -171,7 +180,7 @@ Prop ==
 
 Export ==
   (DoExport /\ stage = 1) =>
-    CASE Mode = "case" ->
+    CASE Mode \in {"case", "casekw"} ->
            (HasSpPassword(s) \/ CaseVariants(s) = {}) \/
            PrintT(ToJson([in |-> s, variants |-> SetToSeq(CaseVariants(s)), pred |-> [sqli |-> Check(s).sqli, fp |-> Check(s).fp]]))
       [] Mode = "quote" -> n = 0 \/ PrintT(ToJson([in |-> s]))
